@@ -703,7 +703,7 @@ func genC09(g GenCtx) interface{} {
 			sc.Cycles = 1 + rng.Intn(3)
 		}
 	}
-	sc.Sim = SimCfg{Strategy: randStrategy(rng, libGoroutines), PermuteMaps: true, MaxSteps: 1500000, EstSteps: 6000}
+	sc.Sim = SimCfg{Strategy: randStrategy(rng, libGoroutines), PermuteMaps: true, MaxSteps: 200000, EstSteps: 6000}
 	sc.Sim.Strategy.StallPermille = 0
 	return sc
 }
